@@ -2,6 +2,7 @@ package headers
 
 import (
 	"fmt"
+	"sort"
 )
 
 func readKey(str string, separator byte) (string, string) {
@@ -70,4 +71,16 @@ func keyValParse(str string, separator byte) (map[string]string, error) {
 	}
 
 	return ret, nil
+}
+
+// sortedKeys returns the keys of a key-value map in a fixed order.
+// Iterating a map directly makes the decoded value (and the reported error)
+// depend on the random iteration order when keys overlap or are malformed.
+func sortedKeys(kvs map[string]string) []string {
+	keys := make([]string, 0, len(kvs))
+	for k := range kvs {
+		keys = append(keys, k)
+	}
+	sort.Strings(keys)
+	return keys
 }
